@@ -37,6 +37,7 @@ K_F11 = "F11:index-time-when-t-equals-t0"
 K_F19 = "F19:index-builder-trusts-field-size"
 K_F18 = "F18:particles-sign-of-zero"
 K_DUP = "cadence:lagging-next-duplicate"
+PRELUDE_IDX = {1, 3, 6, 14, 19, 20, 21, 22, 29, 33, 39, 42, 48, 60, 66, 75, 93, 96, 109, 114, 129, 147, 168}
 
 
 def vstr(v):
@@ -541,6 +542,7 @@ def _run(c, rebound, exe, W, d):
     integ_hist = {}
     hazards = {}
     dims = {}
+    dim_by_fixed = {}
     capture_exc = {}
     change_kinds = {}
     outside = {}
@@ -791,6 +793,8 @@ def _run(c, rebound, exe, W, d):
                 D.add("cadence:mixed_manual")
         for d_ in D:
             dims[d_] = dims.get(d_, 0) + 1
+        if "fixed_idx" in hist:
+            dim_by_fixed[hist["fixed_idx"]] = sorted(D)
         if hist.get("row"):
             row = dict(hist["row"])
             # an event whose op was skipped at run time does not count as covered
@@ -995,19 +999,40 @@ def _run(c, rebound, exe, W, d):
         prows = (prow_all + prow_all)[off:off + nsl]
     c.cov["pairwise_rows"] = {"array": len(prow_all), "this_run": len(prows)}
     open_exe = compile_harness(d, os.path.join(ROOT, "harness", "c07_open.c"), os.path.join(d, "c07_open"))
-    while hi < nh and time.time() - t_start < budget:
-        rng = c.rng.fork()
+    def make_hist(hi, rng, rows, maxapp_):
         r = hi % 12
-        if r in (2, 4, 8, 10, 11) and prows:
-            hist = ac.c06_history_from_row(rng, prows.pop(0))
-        elif hi == 5:
-            hist = ac.gen_history(rng, 2500 if c.thorough else 700, structural="huge_n")
-        elif r in (0, 3, 6, 9):
-            hist = ac.gen_history(rng, rng.randint(2, maxapp), structural=STRUCT_KINDS[(hi // 3) % len(STRUCT_KINDS)], variant=hi // 3)
-        elif r in (1, 7):
-            hist = ac.gen_history(rng, 0, auto=("interval" if (hi // 2) % 2 else "step"))
+        if r in (2, 4, 8, 10, 11) and rows:
+            return ac.c06_history_from_row(rng, rows.pop(0))
+        if hi == 5:
+            return ac.gen_history(rng, 2500 if c.thorough else 700, structural="huge_n")
+        if r in (0, 3, 6, 9):
+            return ac.gen_history(rng, rng.randint(2, maxapp_), structural=STRUCT_KINDS[(hi // 3) % len(STRUCT_KINDS)], variant=hi // 3)
+        if r in (1, 7):
+            return ac.gen_history(rng, 0, auto=("interval" if (hi // 2) % 2 else "step"))
+        return ac.gen_history(rng, rng.randint(1, maxapp_))
+
+    # the dimension obligations must not depend on the seed: a FIXED list of histories (fixed generator seed, independent of
+    # --seed) runs first; PRELUDE_IDX = a set cover of REQUIRED_DIMS computed once over that list (C06_DUMP_DIMS=<file> dumps
+    # the dimensions of every fixed history for recomputing it)
+    prng = SplitMix(20261002)
+    frows = list(prow_all)
+    fixed = []
+    for i_ in range(300):
+        if i_ == 5:
+            continue
+        h_ = make_hist(i_, prng.fork(), frows, 10)
+        h_["fixed_idx"] = i_
+        fixed.append(h_)
+    dump_dims = os.environ.get("C06_DUMP_DIMS")
+    forced = list(fixed) if dump_dims else [h_ for h_ in fixed if h_["fixed_idx"] in PRELUDE_IDX]
+    forced.append(ac.gen_history(prng.fork(), 2500 if c.thorough else 700, structural="huge_n"))
+    c.cov["prelude_histories"] = len(forced)
+    while (hi < nh or forced) and time.time() - t_start < budget:
+        rng = c.rng.fork()
+        if forced:
+            hist = forced.pop(0)
         else:
-            hist = ac.gen_history(rng, rng.randint(1, maxapp))
+            hist = make_hist(hi, rng, prows, maxapp)
         wd = os.path.join(W, "h%d" % hi)
         os.makedirs(wd)
         if cad_repaired:
@@ -1101,6 +1126,8 @@ def _run(c, rebound, exe, W, d):
         c.corr_break("entry-point extraction found only %d C functions / %d Python methods" % (len(cent), len(pyent)))
     if ep_missing:
         c.broken.append("public entry point(s) reaching the archive code not exercised in this run: %s" % ", ".join(ep_missing))
+    if os.environ.get("C06_DUMP_DIMS"):
+        json.dump({str(k_): v_ for k_, v_ in dim_by_fixed.items()}, open(os.environ["C06_DUMP_DIMS"], "w"))
     missing = [d_ for d_ in REQUIRED_DIMS if not dims.get(d_)]
     c.cov["dimensions_missing"] = missing
     if missing and time.time() - t_start < budget:
